@@ -121,7 +121,8 @@ class RefClient:
         self.greeting = cl.parse_handshake_v10(cl.split_raw(self.c.take())[0][1])
         cs = REF_COLL[collation_id]
         self.client, self.results = cs, "utf8mb4"
-        self.caps = cl.BASE_CAPS | cl.CLIENT_CONNECT_WITH_DB | cl.CLIENT_QUERY_ATTRIBUTES | cl.CLIENT_CONNECT_ATTRS
+        self.qattrs = rng.random() < 0.6
+        self.caps = cl.BASE_CAPS | cl.CLIENT_CONNECT_WITH_DB | (cl.CLIENT_QUERY_ATTRIBUTES if self.qattrs else 0) | cl.CLIENT_CONNECT_ATTRS
         body = cl.handshake_response(user=user.encode(REF[cs]), caps=self.caps, db=db.encode(REF[cs]), charset=collation_id,
                                      attrs=[(k.encode(REF[cs]), v.encode(REF[cs])) for k, v in attrs])
         self.c.feed(cl.frame(body, 1))
@@ -138,6 +139,8 @@ class RefClient:
         return cl.split_raw(self.c.take())
 
     def query(self, sql, attrs=()):
+        if not self.qattrs:
+            return self.command(bytes([cl.COM_QUERY]) + self.enc(sql))
         block = cl.lenenc(len(attrs)) + b"\x01"
         if attrs:
             ps = [pk.P(self.enc(k), pk.T_VAR_STRING, False, self.enc(v)) for k, v in attrs]
@@ -257,7 +260,21 @@ def history(ctx, rng, lib_sets):
         stmts = []
         for _ in range(rng.randint(4, 12)):
             r = rng.random()
-            if r < 0.3:
+            if r < 0.08:
+                # a switch followed, in the SAME command, by a statement the server refuses: the switch was executed (the reply is
+                # the second statement's ERR), and everything after it is text in the new character sets
+                cs = rng.choice(usable_client)
+                sql, term, eff = rng.choice([(f"SET NAMES {cs}", f"[INames (Some {S(cs)}) None]", dict(client=cs, results=cs)),
+                                             (f"SET CHARACTER SET {cs}", f"[ICharset (Some {S(cs)})]", dict(client=cs, results=cs)),
+                                             (f"SET character_set_client = '{cs}'", f"[IVar false ScSession {S('character_set_client')} (RVal (VStr {S(cs)}))]", dict(client=cs))])
+                pk_ = c.query(sql + "; SET no_such_variable_at_all = 1")
+                steps.append(f"KSet {term}")
+                if not pk_ or pk_[-1][1][:1] != b"\xff":
+                    return dict(problem="a command whose second statement must be refused was not answered with ERR", sql=sql), steps, views
+                if sess.variables.get("character_set_client") == eff.get("client", c.client):
+                    c.client = eff.get("client", c.client)
+                    c.results = eff.get("results", c.results)
+            elif r < 0.3:
                 sql, term, eff = gen_switch(rng, usable_client)
                 pk_ = c.query(sql)
                 rep = c.decode_reply(pk_)
@@ -311,13 +328,16 @@ def history(ctx, rng, lib_sets):
                     else:
                         p = pk.P(b"", pk.T_VAR_STRING, False, c.enc(text))
                     a = pk.P(c.enc(an), pk.T_VAR_STRING, False, c.enc(av))
-                    c.command(bytes([cl.COM_STMT_EXECUTE]) + sid + b"\x08" + struct.pack("<I", 1) + cl.lenenc(2) + pk.encode_params([p, a], True))
+                    if c.qattrs:
+                        c.command(bytes([cl.COM_STMT_EXECUTE]) + sid + b"\x08" + struct.pack("<I", 1) + cl.lenenc(2) + pk.encode_params([p, a], True))
+                    else:
+                        c.command(bytes([cl.COM_STMT_EXECUTE]) + sid + b"\x00" + struct.pack("<I", 1) + pk.encode_params([p], False))
                     steps.append("KText")
                     got = log[-1] if log and log[-1][0] == "query" else None
                     if got is None or text not in got[1] or lit not in got[1]:
                         return dict(problem="prepared-statement text / string parameter garbled (statement prepared earlier in the history)",
                                     charset_now=c.client, sent=(lit, text), got=got and got[1]), steps, views
-                    if got[2] != {an: av}:
+                    if got[2] != ({an: av} if c.qattrs else {}):
                         return dict(problem="query attributes of COM_STMT_EXECUTE garbled", charset=c.client, sent={an: av}, got=got[2]), steps, views
             elif r < 0.68:
                 # COM_FIELD_LIST: the table name travels in the client character set, the definitions come back in the results one
@@ -357,7 +377,7 @@ def history(ctx, rng, lib_sets):
                 got = log[-1] if log else None
                 if not got or got[0] != "query" or got[1] != sql:
                     return dict(problem="SQL text garbled on its way to the application", charset=c.client, sent=sql, got=got and got[1]), steps, views
-                if got[2] != {an: av}:
+                if got[2] != ({an: av} if c.qattrs else {}):
                     return dict(problem="query attributes garbled", charset=c.client, sent={an: av}, got=got[2]), steps, views
                 if rep[0] != "rows" or rep[1] != names:
                     return dict(problem="column names garbled", results_charset=c.results, sent=names, got=rep[1:2]), steps, views
